@@ -160,3 +160,23 @@ Theorem C06_liveness_example :
     run Witness.edv Witness.vrs fixed Witness.cfg Witness.sc LiveWitness.live_run = GFinal (Success sigs rep) log.
 Proof. exact LiveWitness.liveness_applies. Qed.
 Print Assumptions C06_liveness_example.
+
+(* The comparator of transformAndSortObservations indexes FixedDestLaneUpdates[0] only for two attributed observations
+   of the SAME node, and an observation without lane updates passes validation.  In the repaired code no node is sent
+   two observation requests and no node has two accepted observations in any reachable state, so that branch is never
+   taken (the model's startB panics exactly there: [tas_panics]); C06_total_no_panic covers this step. *)
+Theorem C06_one_observation_per_node : forall edv vrs cfg sc,
+  NoDup (map sg_node (c_signers cfg)) ->
+  forall evs us s, run edv vrs fixed cfg sc evs = GA us s ->
+    NoDup (map snd (a_ids s)) /\ NoDup (map fst (a_acc s)) /\ tas_panics (a_acc s) = false.
+Proof. exact one_observation_per_node. Qed.
+Print Assumptions C06_one_observation_per_node.
+
+(* Before the F12(b) repair the panic was reachable: node 1 answers its own request and, with an empty observation,
+   the request sent to node 2; the same schedule on the repaired code just carries on into phase B. *)
+Theorem C06_sort_panic_unfixed_refuted :
+  exists edv vrs cfg sc evs,
+    (exists l, run edv vrs unfixed cfg sc evs = GFinal Crash l) /\
+    (exists s, run edv vrs fixed cfg sc evs = GB s).
+Proof. exact sort_panic_unfixed_refuted. Qed.
+Print Assumptions C06_sort_panic_unfixed_refuted.
